@@ -138,7 +138,7 @@ def _judge(H, net):
         assert nstates <= 10000
         V, E, F = hypergraph_to_pr_inputs(H, flow)
         pr = PathwayRealizability().load_hypergraph_and_flow(V, E, F).build_petri_net_from_flow()
-        ok, cert = pr.is_realizable(max_states=MAX_STATES)
+        ok, cert = pr.is_realizable(max_states=2 * nstates + 20)  # a correct search visits at most `nstates` states
         ncalls += 1
         if ok:
             bad = verify_cert(pre, post, fl, used, cert, ids_in_order)
@@ -148,6 +148,7 @@ def _judge(H, net):
                 fails.append(Fail("certificate_attr", f"flow={fl}: {pr.certificate} vs {cert}", "same", key_extra=str(fl)))
         if bool(ok) != want:
             fails.append(Fail("realizable", f"flow={fl}: {ok}", f"{want} (exhaustive search, {nstates} states)", key_extra=str(fl)))
+            break  # one failing flow per network is enough; keeps a broken search from costing hours
         n_real += want
         # ---- query histories on the same object: another query first, then is_realizable again
         if max(fl) <= 1 and any(fl):
@@ -167,7 +168,7 @@ def _judge(H, net):
                         fails.append(Fail("konig_unsound", f"flow={fl}: acyclic Konig graph but no ordering exists", "sufficient test", key_extra=str(fl)))
                 else:
                     pr2.is_realizable()
-                ok2, cert2 = pr2.is_realizable(max_states=MAX_STATES)
+                ok2, cert2 = pr2.is_realizable(max_states=2 * nstates + 20)
                 ncalls += 2
                 if bool(ok2) != want:
                     fails.append(Fail("realizable_after_" + first, f"flow={fl}: {ok2}", f"{want}", key_extra=str(fl)))
@@ -180,12 +181,10 @@ def _judge(H, net):
 
 
 def oracle_realizable(pre, post, fl, used):
-    """Exhaustive search: is there an ordering firing reaction j exactly fl[j]
-    times from the zero marking, never negative, ending at zero?"""
+    """Exhaustive search of the whole space of (marking, remaining firings) pairs reachable from the zero marking.
+    Returns (an ordering exists that ends at zero with nothing left to fire, size of the reachable space)."""
     start = (tuple(0 for _ in used), tuple(fl))
     goal = (tuple(0 for _ in used), tuple(0 for _ in fl))
-    if start == goal:
-        return True, 1
     seen = {start}
     stack = [start]
     idx = {p: i for i, p in enumerate(used)}
@@ -202,12 +201,10 @@ def oracle_realizable(pre, post, fl, used):
             for p, w in post[j].items():
                 m2[idx[p]] += w
             st = (tuple(m2), rem[:j] + (k - 1,) + rem[j + 1 :])
-            if st == goal:
-                return True, len(seen)
             if st not in seen:
                 seen.add(st)
                 stack.append(st)
-    return False, len(seen)
+    return goal in seen, len(seen)
 
 
 def balanced(pre, post, fl, used):
